@@ -128,12 +128,6 @@ def bound_rows(site, schema, func):
     return out
 
 
-def show_bind(b):
-    def s(v):
-        if isinstance(v, tuple) and v and v[0] == "sql":
-            return S.show(v[1])
-        return norm(v)
-    return {(" ".join(map(str, k)) if isinstance(k, tuple) else k): s(v) for k, v in b.items()}
 
 
 def select_unpack(site, func):
